@@ -95,6 +95,7 @@ def main():
     ap.add_argument('--tier', default=os.environ.get('VERIF_TIER', 'quick'))
     ap.add_argument('--rebaseline', action='store_true')
     ap.add_argument('--no-kani', action='store_true')
+    ap.add_argument('--no-canaries', action='store_true')
     ap.add_argument('--replay')
     a = ap.parse_args()
     if a.replay:
@@ -283,8 +284,8 @@ def main():
         wall_s=round(wall, 2),
         violations=len(real_viol),
     )
-    os.makedirs(os.path.join(VERIF, 'evidence'), exist_ok=True)
-    with open(os.path.join(VERIF, 'evidence', pid + '.json'), 'w') as fh:
+    os.makedirs(gen.EVIDENCE, exist_ok=True)
+    with open(os.path.join(gen.EVIDENCE, pid + '.json'), 'w') as fh:
         json.dump(ev, fh, indent=1)
 
     for l in out_lines:
